@@ -27,7 +27,8 @@ echo "== demo with the change: $*" >> "$log"
 echo "== demo without the change" >> "$log"
 ( cd "$C" && "$@" ) >> "$log" 2>&1; without=$?
 echo "confirm: suite_with_change_exit=$suite demo_with_change_exit=$with demo_without_change_exit=$without" | tee -a "$log"
-git -C "${REPO:-/repo}" apply "$out/patch.diff" || exit 2
-"$VERIF/check" "$prop" > "$out/check_quick.log" 2>&1; code=$?
-git -C "${REPO:-/repo}" checkout -q -- .
+# run the check against the scratch worktree with the change applied (REPO override): /repo itself stays untouched, so
+# that background runs that rebuild from /repo are never contaminated
+( cd "$C" && git checkout -q -- . && git clean -fdq && git apply "$out/patch.diff" ) || exit 2
+REPO="$C" "$VERIF/check" "$prop" > "$out/check_quick.log" 2>&1; code=$?
 echo "check $prop quick exit=$code"; grep '^  key:\|^VIOLATION\|TROUBLE' "$out/check_quick.log" | head -6
